@@ -656,8 +656,8 @@ func (env *Env) call(n *ast.CallExpr) (Val, error) {
 		return specVal(a.L[2]), nil
 	case "forall", "exists", "forallStr", "existsStr", "forallB", "existsB", "forallStrArr":
 		id, ok := n.Args[0].(*ast.Ident)
-		if !ok || len(n.Args) != 2 {
-			return Val{}, fmt.Errorf("%s(var, body)", fname)
+		if !ok || (len(n.Args) != 2 && len(n.Args) != 3) {
+			return Val{}, fmt.Errorf("%s(var, body [, trigger term])", fname)
 		}
 		srt := "Int"
 		var vt types.Type = types.Typ[types.UntypedInt]
@@ -678,6 +678,14 @@ func (env *Env) call(n *ast.CallExpr) (Val, error) {
 		q := "forall"
 		if strings.HasPrefix(fname, "exists") {
 			q = "exists"
+		}
+		if len(n.Args) == 3 {
+			// explicit instantiation trigger (keeps the solver from instantiating on every term of the sort)
+			tr, err := env.with(id.Name, Val{T: vt, L: []string{qv}}).eval(n.Args[2])
+			if err != nil {
+				return Val{}, err
+			}
+			return Val{T: bt, L: []string{fmt.Sprintf("(%s ((%s %s)) (! %s :pattern (%s)))", q, qv, srt, body.one(), env.idxTerm(tr))}}, nil
 		}
 		return Val{T: bt, L: []string{fmt.Sprintf("(%s ((%s %s)) %s)", q, qv, srt, body.one())}}, nil
 	case "len":
@@ -857,7 +865,7 @@ func (env *Env) call(n *ast.CallExpr) (Val, error) {
 		names := fx.mapHeapNames(m.T)
 		dom := fx.heapVar(env.heap, names[0], "")
 		return Val{T: bt, L: []string{sSel(sSel(dom, m.one()), fx.mapKeyTerm(mt.Key(), k))}}, nil
-	case "str_contains", "str_concat", "str_upper", "str_lower", "str_lt", "str_sub", "str_at", "str_set", "str_splice", "str_zeros", "str_len":
+	case "str_contains", "str_concat", "str_upper", "str_lower", "str_lt", "str_sub", "str_at", "str_set", "str_splice", "str_zeros", "str_len", "byte1":
 		var as []string
 		for i := range n.Args {
 			a, err := arg(i)
